@@ -292,20 +292,35 @@ pub fn build_client(cfg: &Cfg, sink: RecSink, ehlog: Arc<Mutex<Vec<Value>>>) -> 
         return StatsdClient::from_sink(&cfg.prefix(), sink);
     }
     let mut b = StatsdClient::builder(&cfg.prefix(), sink);
-    for t in &cfg.dtags {
-        b = match &t.k {
-            Some(k) => b.with_tag(k, &t.v),
-            None => b.with_tag_value(&t.v),
-        };
-    }
-    if let Some(c) = &cfg.dcid {
-        b = b.with_container_id(c);
-    }
-    if cfg.handler {
-        b = b.with_error_handler(move |e: MetricError| {
-            let (kind, sk, sm) = describe_err(&e);
-            ehlog.lock().unwrap_or_else(|x| x.into_inner()).push(json!({"ev":"eh","kind":kind,"srckind":sk,"srcmsg":sm}));
-        });
+    // the three groups of builder options are given in each of their six orders in turn (the default tags keep their own order)
+    const ORDERS: [[u8; 3]; 6] = [[0, 1, 2], [0, 2, 1], [1, 0, 2], [1, 2, 0], [2, 0, 1], [2, 1, 0]];
+    let order = ORDERS[(FLIP.fetch_add(1, std::sync::atomic::Ordering::Relaxed) % 6) as usize];
+    let mut ehlog = Some(ehlog);
+    for group in order {
+        match group {
+            0 => {
+                for t in &cfg.dtags {
+                    b = match &t.k {
+                        Some(k) => b.with_tag(k, &t.v),
+                        None => b.with_tag_value(&t.v),
+                    };
+                }
+            }
+            1 => {
+                if let Some(c) = &cfg.dcid {
+                    b = b.with_container_id(c);
+                }
+            }
+            _ => {
+                if cfg.handler {
+                    let ehlog = ehlog.take().unwrap();
+                    b = b.with_error_handler(move |e: MetricError| {
+                        let (kind, sk, sm) = describe_err(&e);
+                        ehlog.lock().unwrap_or_else(|x| x.into_inner()).push(json!({"ev":"eh","kind":kind,"srckind":sk,"srcmsg":sm}));
+                    });
+                }
+            }
+        }
     }
     b.build()
 }
